@@ -172,7 +172,7 @@ APS_FULL = [a for a in APS if a[2] == 0 and a[5] == 23]
 
 def _pick_ap(rng):
     """mostly short full-day periods; the annual one now and then"""
-    return APS_FULL[0] if rng.random() < 0.12 else rng.choice(APS_FULL[1:])
+    return APS_FULL[0] if rng.random() < 0.05 else rng.choice(APS_FULL[1:])
 
 
 class Spec(object):
@@ -265,9 +265,12 @@ class ApSpec(Spec):
         leap = rng.random() < 0.3
         dim = [31, 29 if leap else 28, 31, 30, 31, 30, 31, 31, 30, 31, 30, 31]
         m1, m2 = rng.randrange(1, 13), rng.randrange(1, 13)
-        return {'ap': [m1, rng.randrange(1, dim[m1 - 1] + 1), rng.randrange(24),
-                       m2, rng.randrange(1, dim[m2 - 1] + 1), rng.randrange(24),
-                       rng.choice([1, 1, 2, 3, 4, 6, 12, 60]), leap]}
+        ts = rng.choice([1, 1, 2, 3, 4, 6, 12, 60])
+        d1, d2 = rng.randrange(1, dim[m1 - 1] + 1), rng.randrange(1, dim[m2 - 1] + 1)
+        if ts >= 12:            # fine time steps only on short periods (an annual one has 525600 steps)
+            m2 = m1
+            d1, d2 = sorted([d1, rng.randrange(1, dim[m1 - 1] + 1)])
+        return {'ap': [m1, d1, rng.randrange(24), m2, d2, rng.randrange(24), ts, leap]}
 
     def build(self, spec):
         return _aperiod(spec['ap'])
@@ -971,7 +974,7 @@ EPW_PLAIN_ATTRS = ['comments_1', 'comments_2', 'daylight_savings_start', 'daylig
 EPW_SETTER_READS = ['location', 'metadata', 'is_leap_year', 'header', 'typical_weeks', 'extreme_hot_weeks',
                     'extreme_cold_weeks', 'heating_design_condition_dictionary',
                     'cooling_design_condition_dictionary', 'extreme_design_condition_dictionary',
-                    'monthly_ground_temperature', 'annual_heating_design_day_996', 'ashrae_climate_zone',
+                    'monthly_ground_temperature',
                     'dry_bulb_temperature', 'comments_1', 'comments_2', 'daylight_savings_start',
                     'daylight_savings_end']
 
@@ -1010,6 +1013,10 @@ def _check_epw_setter_first(inp):
 # (instance, class or module level) can carry over from another object.
 
 _FRESH = {'proc': None}
+SQL_SET_ORDERED = ('available_outputs', 'available_outputs_info', 'component_types')
+# value taken from the last element of a set iteration (mixed-frequency files): differs between processes
+# with different string hash seeds, is stable inside one process -> not comparable across processes
+SQL_HASH_DEPENDENT = ('reporting_frequency',)
 
 
 def _fresh_server_main():
@@ -1092,9 +1099,17 @@ def _check_cross(inp):
         names = sorted(set(n for j, n in inp['order'] if j == i))
         if names:
             want[i] = _fresh_eval(inp['class'], sp, names)
+    def norm(name, v):
+        # lists that sql.py builds by iterating a set: their order depends on the process's string
+        # hash seed, which differs between this process and the reference process
+        if inp['class'] == 'SQLiteResult' and name in SQL_SET_ORDERED and isinstance(v, list):
+            return sorted(v, key=lambda x: json.dumps(x, sort_keys=True))
+        return v
     for i, name in inp['order']:
         got = json.loads(json.dumps(do_read(S, objs[i], name)))
-        if got != want[i][name]:
+        if inp['class'] == 'SQLiteResult' and name in SQL_HASH_DEPENDENT:
+            continue
+        if norm(name, got) != norm(name, want[i][name]):
             return {'required': '%s of object %d (%s) equals its value in a fresh process: %s'
                                 % (name, i, json.dumps(inp['specs'][i]), json.dumps(want[i][name])[:300]),
                     'observed': json.dumps(got)[:300],
@@ -1242,6 +1257,13 @@ CORPUS = [
                           'reads': ['location', 'typical_weeks']}),
     ('epw_setter_first', {'file': 'chicago.epw', 'setter': 'extreme_hot_weeks', 'variant': 0,
                           'reads': ['dry_bulb_temperature', 'is_leap_year']}),
+    # known findings: the four plain public header attributes of EPW
+    ('epw_setter_first', {'file': 'chicago.epw', 'setter': 'comments_1', 'variant': 0, 'reads': ['location']}),
+    ('epw_setter_first', {'file': 'chicago.epw', 'setter': 'comments_2', 'variant': 0, 'reads': ['location']}),
+    ('epw_setter_first', {'file': 'chicago.epw', 'setter': 'daylight_savings_start', 'variant': 0,
+                          'reads': ['location']}),
+    ('epw_setter_first', {'file': 'chicago.epw', 'setter': 'daylight_savings_end', 'variant': 0,
+                          'reads': ['location']}),
     ('wind_identity', {'t': 'city', 'mt': 'country', 'mh': 10, 'll': False, 'v': 5.5}),
     ('wind_identity', {'t': 'city', 'mt': 'country', 'mh': 10, 'll': True, 'v': 5.5}),
     # known finding: meteorological height below the roughness length is accepted by the setters
@@ -1322,8 +1344,11 @@ def _gen_epw_setter_first(ctx, full):
     files = [f for f in EPW_FILES if f != 'los_angeles_no_leap_field.epw']
     for setter in EPW_SETTERS + EPW_PLAIN_ATTRS:
         for variant in ((0, 1, 2) if full else (0, rng.choice([1, 2]))):
-            reads = rng.sample([r for r in EPW_SETTER_READS if r != 'dry_bulb_temperature'], 3)
-            if rng.random() < (0.5 if full else 0.12):
+            # other plain attributes are left out: read first they return the constructor's placeholder
+            pool = [r for r in EPW_SETTER_READS if r != 'dry_bulb_temperature'
+                    and (r not in EPW_PLAIN_ATTRS or r == setter)]
+            reads = rng.sample(pool, 3)
+            if rng.random() < (0.5 if full else 0.08):
                 reads.insert(rng.randrange(len(reads) + 1), 'dry_bulb_temperature')
             ctx.count('epw_setter_first:%s' % setter)
             yield 'epw_setter_first', {'file': rng.choice(files), 'setter': setter, 'variant': variant,
@@ -1433,7 +1458,7 @@ def _oracle_cases(ctx):
     for c in _gen_epw_setter_first(ctx, full):
         yield c
     for cname in ('WindRose', 'MonthlyChart', 'Compass', 'WindProfile'):
-        for c in _gen_pairs(ctx, cname, None if full else 40):
+        for c in _gen_pairs(ctx, cname, None if full else (12 if cname == 'MonthlyChart' else 40)):
             yield c
     big = (not ctx.quick) or ctx.searching
     m = 6 if big else 1
